@@ -548,6 +548,26 @@ stun_message_append_error (StunMessage *msg, StunError code)
   return STUN_MESSAGE_RETURN_SUCCESS;
 }
 
+/* Reads the byte at @offset of the data spread over @buffers. Empty buffers
+ * hold no data and are skipped. Returns FALSE if the vector is shorter. */
+static bool
+priv_input_vector_peek (const StunInputVector *buffers, int n_buffers,
+    size_t offset, uint8_t *byte)
+{
+  unsigned int i;
+
+  for (i = 0; (n_buffers >= 0 && i < (unsigned int) n_buffers) ||
+           (n_buffers < 0 && buffers[i].buffer != NULL); i++) {
+    if (offset < buffers[i].size) {
+      *byte = buffers[i].buffer[offset];
+      return TRUE;
+    }
+    offset -= buffers[i].size;
+  }
+
+  return FALSE;
+}
+
 /* Fast validity check for a potential STUN packet. Examines the type and
  * length, but none of the attributes. Designed to allow vectored I/O on all
  * incoming packets, filtering packets for closer inspection as to whether
@@ -557,14 +577,16 @@ ssize_t stun_message_validate_buffer_length_fast (StunInputVector *buffers,
     int n_buffers, size_t total_length, bool has_padding)
 {
   size_t mlen;
+  uint8_t first, hi, lo;
 
-  if (total_length < 1 || n_buffers == 0 || buffers[0].buffer == NULL)
+  if (total_length < 1 || n_buffers == 0 || buffers[0].buffer == NULL ||
+      !priv_input_vector_peek (buffers, n_buffers, 0, &first))
   {
     stun_debug ("STUN error: No data!");
     return STUN_MESSAGE_BUFFER_INVALID;
   }
 
-  if (buffers[0].buffer[0] >> 6)
+  if (first >> 6)
   {
     return STUN_MESSAGE_BUFFER_INVALID; // RTP or other non-STUN packet
   }
@@ -579,27 +601,15 @@ ssize_t stun_message_validate_buffer_length_fast (StunInputVector *buffers,
     /* Fast path. */
     mlen = stun_getw (buffers[0].buffer + STUN_MESSAGE_LENGTH_POS);
   } else {
-    /* Slow path. Tiny buffers abound. */
-    size_t skip_remaining = STUN_MESSAGE_LENGTH_POS;
-    unsigned int i;
+    /* Slow path. Tiny (and possibly empty) buffers abound. We’ve already
+     * checked that @total_length is long enough, so @buffers should be too. */
+    if (!priv_input_vector_peek (buffers, n_buffers,
+            STUN_MESSAGE_LENGTH_POS, &hi) ||
+        !priv_input_vector_peek (buffers, n_buffers,
+            STUN_MESSAGE_LENGTH_POS + 1, &lo))
+      return STUN_MESSAGE_BUFFER_INVALID;
 
-    /* Skip bytes. */
-    for (i = 0; (n_buffers >= 0 && i < (unsigned int) n_buffers) ||
-             (n_buffers < 0 && buffers[i].buffer != NULL); i++) {
-      if (buffers[i].size <= skip_remaining)
-        skip_remaining -= buffers[i].size;
-      else
-        break;
-    }
-
-    /* Read bytes. May be split over two buffers. We’ve already checked that
-     * @total_length is long enough, so @n_buffers should be too. */
-    if (buffers[i].size - skip_remaining > 1) {
-      mlen = stun_getw (buffers[i].buffer + skip_remaining);
-    } else {
-      mlen = (*(buffers[i].buffer + skip_remaining) << 8) |
-             (*(buffers[i + 1].buffer));
-    }
+    mlen = (hi << 8) | lo;
   }
 
   mlen += STUN_MESSAGE_HEADER_LENGTH;
